@@ -5,7 +5,7 @@ from vlib import cz, czl
 
 LEVEL_TEXT = ("Theorems in Coq over an abstract field with conjugation (any order, any lag sequence): the model of "
               "LEVINSON satisfies T_p[1,a]=[P,0..0], P=r0*prod(1-|k|^2), nesting, and raises exactly at a stage with P<=0; "
-              "the model of HERMTOEP returns x with T x = z and fails only at a stage with P<=0. "
+              "the models of HERMTOEP and of the general TOEPLITZ return x with T x = z (HERMTOEP fails only at a stage with P<=0). "
               "The hand-written Gallina model is tied to the code by running both on the same exact dyadic inputs "
               "(vm_compute over Gaussian rationals, comparison inside Coq) and a property-directed search on the implementation.")
 TRUSTED = ["Coq 8.16.1 kernel + vm_compute (no native_compute)",
@@ -14,7 +14,7 @@ TRUSTED = ["Coq 8.16.1 kernel + vm_compute (no native_compute)",
            "Python harness (snapshot, generators, float->dyadic conversion)"]
 UNPROVED = ["positive definite => P_m > 0 and |k_m| < 1 (order argument in R): search only",
             "stability (roots inside the unit circle): search only",
-            "TOEPLITZ (general) and CHOLESKY: correspondence (TOEPLITZ) and residual search only",
+            "CHOLESKY (numpy/scipy back ends): residual search only",
             ]
 ASSUMPTIONS = ["exact arithmetic in the theorems; rounding error of the binary64 code is not bounded by any theorem",
                "inputs of the correspondence run are dyadic rationals with few significant bits"]
